@@ -32,8 +32,8 @@ func init() { register("C16", genC16) }
 
 // pooled statistics of the smudging noise found in the shares (share − deterministic part)
 type c16Stat struct {
-	n     int
-	sumSq float64
+	n      int
+	sumSq  float64
 	maxAbs int
 }
 
@@ -74,22 +74,23 @@ func genC16(c *Ctx) {
 				}
 				for _, ntt := range []bool{true, false} {
 					sigma := []float64{3.2, 25.6, 1 << 10}[c.rng.Intn(3)]
-					c16CKS(c, set, n, lvl, lvl, ntt, sigma)
-					c16PCKS(c, set, n, lvl, lvl, ntt, sigma)
+					c14Guard(c, "C16-harness-panic", "c16CKS", func() { c16CKS(c, set, n, lvl, lvl, ntt, sigma) })
+					c14Guard(c, "C16-harness-panic", "c16PCKS", func() { c16PCKS(c, set, n, lvl, lvl, ntt, sigma) })
 				}
 			}
 		}
 		// share allocated above / below the ciphertext level
 		if set.maxQ() > 0 {
-			c16CKS(c, set, 2, set.maxQ()-1, set.maxQ(), true, 3.2)
-			c16CKS(c, set, 2, set.maxQ(), set.maxQ()-1, true, 3.2)
-			c16PCKS(c, set, 2, set.maxQ()-1, set.maxQ(), true, 3.2)
+			c14Guard(c, "C16-harness-panic", "c16CKS", func() { c16CKS(c, set, 2, set.maxQ()-1, set.maxQ(), true, 3.2) })
+			c14Guard(c, "C16-harness-panic", "c16CKS", func() { c16CKS(c, set, 2, set.maxQ(), set.maxQ()-1, true, 3.2) })
+			c14Guard(c, "C16-harness-panic", "c16PCKS", func() { c16PCKS(c, set, 2, set.maxQ()-1, set.maxQ(), true, 3.2) })
 		}
-		c16LevelMismatch(c, set)
+		c14Guard(c, "C16-harness-panic", "c16LevelMismatch", func() { c16LevelMismatch(c, set) })
 	}
 	c16BGV(c, ns)
 	c16CKKS(c, ns)
 	c16SmudgeProbes(c)
+	c16MaskDistributionProbe(c)
 }
 
 func c16Noise(params rlwe.Parameters, sigma float64) ring.DiscreteGaussian {
@@ -204,7 +205,8 @@ func c16CKS(c *Ctx, set c14Set, n, ctLvl, shareLvl int, ntt bool, sigma float64)
 		c16Record(fmt.Sprintf("cks copy=%t sigma=%g", copied[i], sigma),
 			c16Residual(params, lvl, ntt, shares[i].Value, []c16Term{{ct.Value[1], in.sk[i], 1}, {ct.Value[1], out.sk[i], -1}}, nil, nil))
 		if shares[i].Level() != lvl {
-			panic("c16: share level")
+			c.Probe("run_completed", fmt.Sprintf("cks_share_level set=%s", set.name), "C16-harness", fmt.Sprintf("share_level=%d_want=%d", shares[i].Level(), lvl))
+			return
 		}
 		rows[i] = Mat(c16QRows(params, shares[i].Value, lvl, ntt))
 		c.Emit(fmt.Sprintf("cks_share %s %d %s %s %s %s", qs, set.n, c1, IVec(in.s[i]), IVec(out.s[i]), IVec(e)), rows[i])
@@ -227,6 +229,15 @@ func c16CKS(c *Ctx, set c14Set, n, ctLvl, shareLvl int, ntt bool, sigma float64)
 	}
 	eq := func(x, y multiparty.KeySwitchShare) bool { return x.Value.Equal(&y.Value) }
 	c14OrderProbeKey(c, "cks set="+set.name+fmt.Sprintf(" lvl=%d ntt=%t", lvl, ntt), "C16-agg-order", shares, add, rt, eq)
+	if ol := c16OtherLevel(set.maxQ(), lvl); ol >= 0 {
+		recv, _ := add(shares[0], shares[0])
+		bad := protos[0].AllocateShare(ol)
+		lab := fmt.Sprintf("set=%s lvl=%d other=%d", set.name, lvl, ol)
+		snap := func() string { return c16PolySnap(recv.Value) }
+		c14Refused(c, "C16:KeySwitchProtocol.AggregateShares", "level_share1", lab, snap, func() error { return protos[0].AggregateShares(bad, shares[0], &recv) })
+		c14Refused(c, "C16:KeySwitchProtocol.AggregateShares", "level_share2", lab, snap, func() error { return protos[0].AggregateShares(shares[0], bad, &recv) })
+		c14Refused(c, "C16:KeySwitchProtocol.AggregateShares", "level_receiver", lab, func() string { return c16PolySnap(bad.Value) }, func() error { return protos[0].AggregateShares(shares[0], shares[0], &bad) })
+	}
 
 	t := c14RandTree(c, c14RandPerm(c, n))
 	agg, _ := c14Eval(t, shares, add)
@@ -397,6 +408,14 @@ func c16PCKS(c *Ctx, set c14Set, n, ctLvl, shareLvl int, ntt bool, sigma float64
 		return x.Value[0].Equal(&y.Value[0]) && x.Value[1].Equal(&y.Value[1])
 	}
 	c14OrderProbeKey(c, "pcks set="+set.name+fmt.Sprintf(" lvl=%d ntt=%t", lvl, ntt), "C16-agg-order", shares, add, rt, eq)
+	if ol := c16OtherLevel(set.maxQ(), shareLvl); ol >= 0 {
+		recv, _ := add(shares[0], shares[0])
+		bad := protos[0].AllocateShare(ol)
+		lab := fmt.Sprintf("set=%s lvl=%d other=%d", set.name, shareLvl, ol)
+		snap := func() string { return c16PolySnap(recv.Value[0]) + " " + c16PolySnap(recv.Value[1]) }
+		c14Refused(c, "C16:PublicKeySwitchProtocol.AggregateShares", "level_share1", lab, snap, func() error { return protos[0].AggregateShares(bad, shares[0], &recv) })
+		c14Refused(c, "C16:PublicKeySwitchProtocol.AggregateShares", "level_share2", lab, snap, func() error { return protos[0].AggregateShares(shares[0], bad, &recv) })
+	}
 
 	t := c14RandTree(c, c14RandPerm(c, n))
 	agg, _ := c14Eval(t, shares, add)
@@ -566,6 +585,34 @@ func c16SameCt(ref *rlwe.Ciphertext, others []*rlwe.Ciphertext, lvl int) string 
 		}
 	}
 	return ""
+}
+
+// snapshots of receivers (stored words, levels, metadata)
+func c16PolySnap(p ring.Poly) string { return I(p.Level()) + ":" + Mat(RawRows(p)) }
+
+func c16CtSnap(ct *rlwe.Ciphertext) string {
+	md, _ := ct.MetaData.MarshalBinary()
+	out := I(ct.Degree()) + " " + Hex(md)
+	for i := range ct.Value {
+		out += " " + c16PolySnap(ct.Value[i])
+	}
+	return out
+}
+
+func c16RefreshSnap(sh *multiparty.RefreshShare) string {
+	md, _ := sh.MetaData.MarshalBinary()
+	return Hex(md) + " " + c16PolySnap(sh.EncToShareShare.Value) + " " + c16PolySnap(sh.ShareToEncShare.Value)
+}
+
+// c16OtherLevel: another level of the chain (-1 if the chain has one prime)
+func c16OtherLevel(maxQ, lvl int) int {
+	if lvl > 0 {
+		return lvl - 1
+	}
+	if lvl < maxQ {
+		return lvl + 1
+	}
+	return -1
 }
 
 func c16PRNG(key []byte) *sampling.KeyedPRNG {
